@@ -2,6 +2,7 @@ package service
 
 import (
 	"encoding/base64"
+	"errors"
 	"fmt"
 	"strings"
 	"time"
@@ -98,6 +99,11 @@ func parseBasicHeaderValue(s string) (domain, username, password string, err err
 	}
 	v := string(b)
 	vc := strings.SplitN(v, ":", 2)
+	if len(vc) != 2 {
+		// RFC 7617: the decoded value is user-id ":" password.
+		err = errors.New("basic authentication value does not contain a colon separating user-id and password")
+		return
+	}
 	password = vc[1]
 	// Domain and username can be specified in 2 formats:
 	// <Username> - no domain specified
